@@ -7,9 +7,18 @@ import (
 )
 
 func simTempDir() (string, func()) {
-	d, err := os.MkdirTemp("", "vfsim")
+	base := ""
+	if st, err := os.Stat("/dev/shm"); err == nil && st.IsDir() {
+		base = "/dev/shm" // the cache databases are scratch files; a RAM disk avoids fsync latency
+	}
+	d, err := os.MkdirTemp(base, "vfsim")
+	if err != nil && base != "" {
+		d, err = os.MkdirTemp("", "vfsim")
+	}
 	if err != nil {
 		panic("VERIF-INCONCLUSIVE: cannot create temp dir: " + err.Error())
 	}
 	return d, func() { os.RemoveAll(d) }
 }
+
+func mkdirAll(d string) error { return os.MkdirAll(d, 0o755) }
